@@ -14,7 +14,9 @@ RULE = (
     "span; a case applies 1-3 rewrites, each (kind, site) drawn at random from: redundant parentheses, "
     "re-association of a contiguous sub-run of a ~-run or |-run, extraction into a fresh silent rule, "
     "X -> ((X) | (X)), X -> (((X) ~ NEVER) | (X)), X -> ((!(X) ~ NEVER) | (X)) with NEVER a private-use literal "
-    "absent from every input; rewrites are text splices re-validated by the meta-grammar after every step. "
+    "absent from every input; rewrites are text splices re-validated by the meta-grammar after every step; plus, "
+    "deterministically, every nested pair (outer duplicating rewrite x any inner rewrite inside its first copy) at "
+    "every site that touches the stack (lists.pest). "
     "Inputs: corpus inputs from the repository's tests/examples (valid) and 1-3-character mutations of them "
     "(mostly invalid). Oracle: same outcome class and same tree as the original grammar in raw-int, raw-gen, "
     "opt-int, opt-gen (failure positions/labels are not compared). Non-trivial: the original parse succeeded "
@@ -32,6 +34,12 @@ FAMILIES = [
     "examples/calculator/grammar_encoded_prec.pest", "tests/grammars/lists.pest", "examples/ini/ini.pest",
     "examples/csv/csv.pest",
 ]
+
+
+def meta_parse(text):
+    from pestverif import meta
+
+    return meta.parse_grammar(text)
 
 
 def names_in(tree):
@@ -167,6 +175,45 @@ def run_shard(ctx: Ctx, spec):
                                           f"original {str(oa)[:300]} vs rewritten {str(ob)[:300]} (rewrites: {log})")
                 if len(ctx.samples) < 3:
                     ctx.sample({"grammar_file": gpath, "rewrites": [list(x) for x in log], "inputs": [c[1][:40] for c in calls[:3]]})
+
+            # deterministic nested pairs at every site that touches the stack (only lists.pest has such sites): an outer
+            # duplicating rewrite with every inner rewrite applied inside the FIRST copy - the attempt that is (or may
+            # be) abandoned after stack operations inside it have succeeded
+            stack_sites = [c for c in dict.fromkeys(rewrite.candidates(rewrite.sites_of(text), "parens"))
+                           if any(k in text[c[0]:c[1]] for k in ("PUSH", "POP", "DROP", "PEEK")) and c[1] - c[0] <= 120]
+            nested = [(site, outer, inner) for site in stack_sites for outer in ("dup", "seq-never", "not-never")
+                      for inner in ("dup", "seq-never", "not-never", "parens", "extract")]
+            for ni, ((start, end, rule), outer, inner) in enumerate(nested):
+                if (ni + gi) % 16 != idx:
+                    continue
+                g0 = rewrite.sites_of(text)
+                t1 = rewrite.apply(text, outer, start, end, rewrite.fresh(g0, 0))
+                off = {"dup": 2, "seq-never": 3, "not-never": 4}[outer]
+                new = rewrite.apply(t1, inner, start + off, start + off + (end - start), rewrite.fresh(g0, 1))
+                if meta_parse(new) is None:
+                    raise rewrite.RewriteError(f"nested rewrite {outer}/{inner} of {text[start:end]!r} produced an invalid grammar")
+                log = [(outer, rule, text[start:end][:60]), (inner, rule, "first copy")]
+                if base is None:
+                    base = evaluate(modes, text, calls)
+                got = evaluate(modes, new, calls)
+                ctx.count("nested_stack_site_cases")
+                for mode in ("raw-int", "raw-gen", "opt-int", "opt-gen"):
+                    a, b = base[mode], got[mode]
+                    if isinstance(a, tuple) and a and a[0] in ("load", "genload"):
+                        continue
+                    mk = lambda call, mode=mode: {"grammar_file": gpath, "rewritten": new, "log": [list(x) for x in log],  # noqa: E731
+                                                  "rule": call[0], "input": call[1], "mode": mode}
+                    if isinstance(b, tuple) and b and b[0] in ("load", "genload"):
+                        ctx.violation(f"{mode}:rewritten-{b[0]}", mk(calls[0]), f"rewritten grammar does not load: {b[1]} (rewrites {log})")
+                        continue
+                    for call, oa, ob in zip(calls, a, b):
+                        ctx.evals += 1
+                        cls = compare(oa, ob)
+                        if cls in (None, "skip"):
+                            continue
+                        ctx.violation(f"{mode}:{cls}:nested-stack-site", mk(call),
+                                      f"original {str(oa)[:300]} vs rewritten {str(ob)[:300]} (rewrites: {log})")
+                ctx.nt_extra += 1
     finally:
         modes.close()
 
